@@ -7,7 +7,7 @@
    The expression- and equation-level round trips (printed text parses, prints identically and
    evaluates as the ORIGINAL tree denotes in Jp/Expr.v) are decided by correspondence. *)
 From Coq Require Import Init.Byte ZArith List Bool.
-Require Import Ojg.Base.Bytes Ojg.Json.Writer Ojg.Jp.Str Ojg.Jp.StrU.
+Require Import Ojg.Base.Bytes Ojg.Json.Writer Ojg.Jp.Str Ojg.Jp.StrU Ojg.Jp.PathText Ojg.Jp.PathRT.
 Import ListNotations.
 
 Theorem C14_string_roundtrip : forall s term k,
@@ -35,3 +35,22 @@ Example C14_string_roundtrip_all_example :
 Proof. vm_compute. reflexivity. Qed.
 
 Print Assumptions C14_string_roundtrip_all.
+
+
+(* ---- normal paths (the paths Locate and Walk hand out): root, then children with ANY key bytes and
+   indexes with ANY integer. The printed text (dot form for token keys by the regenerated
+   jp_tokenMap, bracketed literal otherwise, [n] for indexes) parses back to the same fragments;
+   a key printed in brackets comes back with invalid UTF-8 replaced. *)
+Theorem C14_normal_path_round_trip : forall fs, parse_path (print_path fs) = Some (map norm_frag fs).
+Proof. exact path_text_round_trip. Qed.
+
+Theorem C14_normal_path_round_trip_clean : forall fs,
+  Forall frag_clean fs -> parse_path (print_path fs) = Some fs.
+Proof. exact path_text_round_trip_clean. Qed.
+
+Example C14_normal_path_example :
+  let fs := [NChild [x61; x62]; NNth (-9223372036854775808)%Z; NChild [x61; x20; x27]; NNth 0%Z; NChild []; NChild [xc3; xa9]] in
+  parse_path (print_path fs) = Some fs.
+Proof. vm_compute. reflexivity. Qed.
+
+Print Assumptions C14_normal_path_round_trip.
